@@ -94,6 +94,16 @@ def queries(pool, npos, rng, full):
     add("k between ? and ?", [pool[hi], pool[lo]], "asc")
     add("k > ? and k > ? and k < ?", [pool[lo], pool[min(lo + 1, npos - 1)], pool[hi]], "asc")
     add("? < k and ? >= k", [pool[lo], pool[hi]], "desc")
+    # two bounds on the same side with the same value and different strictness, equality combined with a bound:
+    # the cursor's own window must be as tight as the tightest constraint (SQLite may not re-check)
+    for p in (range(npos) if full else rng.sample(range(npos), 2)):
+        add("k <= ? and k < ?", [pool[p], pool[p]], rng.choice(["asc", None]))
+        add("k >= ? and k > ?", [pool[p], pool[p]], rng.choice(["asc", None]))
+        add("k < ? and k <= ?", [pool[p], pool[p]], None, agg="count")
+        add("k > ? and k >= ?", [pool[p], pool[p]], None, agg="count")
+        add("k = ? and k < ?", [pool[p], pool[p]], None)
+        add("k = ? and k >= ?", [pool[p], pool[p]], None)
+        add("k = ? and k = ?", [pool[p], pool[(p + 1) % npos]], None)
     add("k > NULL", [], "asc")
     add("k <= NULL", [], "desc")
     add(None, [], None)
